@@ -123,7 +123,7 @@ def body_lists(ch, ctx):
     db = get_db(ctx)
     feats, objs = [], []
     for i, ((s, e), seqid, strand) in enumerate(chosen):
-        attrs = {"ID": ["x%d" % i], "Parent": ["t1"], "num": [str(10 - i)], "tag": ["v%d" % (i % 2)]}
+        attrs = {"ID": ["x%d" % i], "Parent": ["t1"], "num": [str(10 - i)], "tag": ["v%d" % (i % 2)], "lvl": ["2", "10"]}
         ft = ("exon", "CDS")[i % 2]
         feats.append(dict(seqid=seqid, start=s, end=e, strand=strand, ft=ft, attrs=attrs))
         objs.append(gffutils.Feature(seqid=seqid, source="s", featuretype=ft, start=s, end=e, strand=strand,
@@ -170,7 +170,7 @@ def body_introns(ch, ctx):
         lines.append("c1\ts\tmRNA\t%d\t%d\t.\t%s\t.\tID=%s;Parent=g1" % (min(a for a, b in exs), max(b for a, b in exs), strand, t))
         seq = sorted(exs) if order == "asc" else sorted(exs, reverse=True)
         for j, (a, b) in enumerate(seq):
-            lines.append("c1\ts\texon\t%d\t%d\t.\t%s\t.\tID=%s_e%d_%d;Parent=%s;num=%d" % (a, b, strand, t, a, b, t, 10 - j))
+            lines.append("c1\ts\texon\t%d\t%d\t.\t%s\t.\tID=%s_e%d_%d;Parent=%s;num=%d;lvl=2,10" % (a, b, strand, t, a, b, t, 10 - j))
     path = dbutil.write_text(ctx.fresh_dir(), "in.gff", "\n".join(lines) + "\n")
     db = gffutils.create_db(path, ":memory:", verbose=False)
     before = dbutil.canon(db)
@@ -186,6 +186,10 @@ def body_introns(ch, ctx):
     for sel, kw in (("grandparent", {}), ("parent", dict(grandparent_featuretype=None, parent_featuretype="mRNA"))):
         got = sorted((f.attributes["Parent"][0], f.start, f.end) for f in db.create_introns(**kw))
         ctx.check(got == sorted(exp), "introns-differ", dict(sig, selection=sel), file=lines, got=got, expected=sorted(exp))
+        for f in db.create_introns(numeric_sort=True, **kw):
+            a = G.as_plain(f.attributes)
+            ctx.check(a.get("lvl") == ["2", "10"] and a.get("Parent") == [f.attributes["Parent"][0]], "intron-attributes-not-sorted-union",
+                      dict(sig, selection=sel), file=lines, got={k: list(v) for k, v in a.items()})
         bad = [f for f in db.create_introns(**kw) if f.featuretype != "intron" or f.strand != strand or f.seqid != "c1"]
         ctx.check(not bad, "intron-columns-wrong", dict(sig, selection=sel), file=lines, bad=[str(b) for b in bad][:3])
         sites = [(f.featuretype, f.attributes["Parent"][0], f.start, f.end, f.strand, f.attributes["ID"][0]) for f in db.create_splice_sites(**kw)]
